@@ -325,6 +325,23 @@ pub fn seed_funding_receiver_slightly_under(long: bool) -> Vec<Act> {
     }
 }
 
+/// a busy market: after a price move that puts alice under maintenance at spot (not yet on the 15-minute average),
+/// somebody trades a dust amount in each of 110 consecutive one-second blocks (more reserve snapshots inside the
+/// 15-minute window than any per-call bound on the walk would visit)
+pub fn seed_busy_market() -> Vec<Act> {
+    let mut v = vec![
+        Act::open("alice", true, 25 * D, 10 * D),
+        Act::blk(3600),
+        Act::open("bob", false, 50 * D, D),
+        px_at_spot(),
+    ];
+    for i in 0..110 {
+        v.push(Act::Open { t: "carol".into(), v: 0, buy: i % 2 == 0, margin: 1_000, lev: D, limit: 0 });
+        v.push(Act::blk(1));
+    }
+    v
+}
+
 /// everything in one block: carol pumps, alice and bob open long at the top, carol closes; alice and
 /// bob are far below maintenance on spot and on TWAP within the same block
 pub fn seed_same_block_cascade() -> Vec<Act> {
